@@ -62,9 +62,14 @@ def run(ctx):
     callers = set()
     for tf in TABLE_FNS:
         for (c, bi) in F.callers(tf):
-            callers.add(c)
             f = F.fn(c)
             key_e = f.argv(bi, 0)
+            if c in TABLE_FNS and peel(key_e) == ('param', 1):
+                # one table function implemented on top of another, handing its own key parameter on: the key is decided at
+                # that function's call sites, which are checked in their turn
+                rep.ok(r2, '%s->%s' % (c, tf.split('::')[-1]), 'key = the caller\'s own key parameter', f.loc(bi))
+                continue
+            callers.add(c)
             als = palts(key_e)
             oks = []
             for a in als:
